@@ -1,7 +1,7 @@
 /-
 The tokenizer laws of the filter theorems for the STREAM tokenizer (`Tokenize.stream`, i.e.
 `Tokenizer::new_fragment(data, last_context)` as used by `HtmlFilterBodyAction::filter` since fe7eac6).
-Statements only (plus the executable `view`); the proofs for the concrete `htmlTokenize` are W5's
+Statements, the executable `view` and its elementary lemmas; the proofs of the laws for the concrete `htmlTokenize` are W5's
 (Proofs/HtmlStream7*.lean) except `LosslessS` (Proofs/FilterTok.lean).
 -/
 import RioModel.Proofs.Filter
@@ -36,6 +36,124 @@ def view (tk : Tokenize) (c d : Bytes) : View :=
   let th := if sp.2.isEmpty then splitHeld (toksOf sp.1) else (toksOf sp.1, [])
   { todo := th.1, all := toksOf sp.1, tail := th.2 ++ rawsOf (toksOf sp.2) ++ r.2.1,
     rem := rawsOf (toksOf sp.2) ++ r.2.1, ctx' := heldCtx sp.1 sp.2 th.2 r.2.2 }
+
+/-! ### `filterHtml` in terms of `view` -/
+
+theorem rawsOf_cons (t : Tok) (ts : List Tok) : rawsOf (t :: ts) = t.raw ++ rawsOf ts := by
+  simp [rawsOf]
+
+theorem rawsOf_append (a b : List Tok) : rawsOf (a ++ b) = rawsOf a ++ rawsOf b := by
+  simp [rawsOf]
+
+/-- the token the "held" rule keeps back is a text token at the end of the list -/
+theorem splitHeld_cases (ts : List Tok) :
+    (splitHeld ts = (ts, [])) ∨
+    (∃ t, t.kind = .text ∧ ts = (splitHeld ts).1 ++ [t] ∧ (splitHeld ts).2 = t.raw) := by
+  unfold splitHeld
+  split
+  · rename_i t ht
+    split
+    · rename_i hc
+      right
+      obtain ⟨ys, hys⟩ := List.getLast?_eq_some_iff.mp ht
+      refine ⟨t, hc.1, ?_, rfl⟩
+      simp [hys]
+    · left; rfl
+  · rename_i ht
+    simp at ht
+    left; simp [ht]
+
+theorem cutSplit_append (xs : List TokX) : (cutSplit xs).1 ++ (cutSplit xs).2 = xs := by
+  unfold cutSplit
+  exact List.takeWhile_append_dropWhile
+
+theorem toksOf_append (a b : List TokX) : toksOf (a ++ b) = toksOf a ++ toksOf b := by
+  simp [toksOf]
+
+theorem mem_takeWhile_true {α : Type} (p : α → Bool) : ∀ (l : List α) (x : α), x ∈ l.takeWhile p → p x = true
+  | [], _, h => by simp at h
+  | a :: l, x, h => by
+    rw [List.takeWhile_cons] at h
+    split at h
+    · rename_i hp
+      simp only [List.mem_cons] at h
+      rcases h with rfl | h
+      · exact hp
+      · exact mem_takeWhile_true p l x h
+    · simp at h
+
+/-- no token before the first cut one is cut -/
+theorem cutSplit_pre_notCut (xs : List TokX) : ∀ x ∈ (cutSplit xs).1, isCut x = false := by
+  intro x hx
+  have := mem_takeWhile_true _ _ _ hx
+  simpa using this
+
+section
+variable (tk : Tokenize) (ev : Bytes → Bytes → Bool)
+
+/-- `filterHtml` computes exactly `view` -/
+theorem filterHtml_view (s : HtmlSt) (x : Bytes) :
+    filterHtml tk ev s x =
+      match utf8Split (s.last ++ x) with
+      | none => none
+      | some (data, pending) =>
+        some ({ ((view tk s.ctx data).todo.foldl (stepTok tk ev) (s, [])).1 with
+                  last := (view tk s.ctx data).tail ++ pending, ctx := (view tk s.ctx data).ctx' },
+              ((view tk s.ctx data).todo.foldl (stepTok tk ev) (s, [])).2) := by
+  unfold filterHtml view
+  cases utf8Split (s.last ++ x) with
+  | none => rfl
+  | some r =>
+    obtain ⟨data, pending⟩ := r
+    simp only [List.append_assoc]
+
+/-- either nothing is held back by the "text containing `<`" rule, or the held text is the last token before the rest -/
+theorem view_cases (c d : Bytes) :
+    ((view tk c d).todo = (view tk c d).all ∧ (view tk c d).tail = (view tk c d).rem) ∨
+    (∃ t, t.kind = .text ∧ (view tk c d).all = (view tk c d).todo ++ [t] ∧
+      (view tk c d).tail = t.raw ++ (view tk c d).rem) := by
+  unfold view
+  simp only
+  split
+  · rcases splitHeld_cases (toksOf (cutSplit (tk.stream c d).1).1) with h | ⟨t, h1, h2, h3⟩
+    · left; rw [h]; simp
+    · right; exact ⟨t, h1, h2, by rw [h3]; simp⟩
+  · left; simp
+
+theorem view_all_rem (hl : LosslessS tk) (c d : Bytes) : rawsOf (view tk c d).all ++ (view tk c d).rem = d := by
+  have h := hl c d
+  have h2 := cutSplit_append (tk.stream c d).1
+  unfold view
+  simp only
+  rw [← List.append_assoc, ← rawsOf_append, ← toksOf_append, h2]
+  exact h
+
+/-- processed tokens followed by the kept tail are the data -/
+theorem view_todo_tail (hl : LosslessS tk) (c d : Bytes) : rawsOf (view tk c d).todo ++ (view tk c d).tail = d := by
+  have h := view_all_rem tk hl c d
+  rcases view_cases tk c d with ⟨h1, h2⟩ | ⟨t, _, h1, h2⟩
+  · rw [h1, h2]; exact h
+  · rw [h1] at h
+    rw [h2]
+    rw [rawsOf_append, rawsOf_cons] at h
+    simpa [rawsOf, List.append_assoc] using h
+
+theorem view_todo_sub (c d : Bytes) : ∀ t ∈ (view tk c d).todo, t ∈ (view tk c d).all := by
+  intro t ht
+  rcases view_cases tk c d with ⟨h1, _⟩ | ⟨t', _, h1, _⟩
+  · rw [← h1]; exact ht
+  · rw [h1]; simp [ht]
+
+theorem view_all_mem (c d : Bytes) : ∀ t ∈ (view tk c d).all, ∃ x ∈ (tk.stream c d).1, x.tok = t := by
+  intro t ht
+  unfold view at ht
+  simp only [toksOf, List.mem_map] at ht
+  obtain ⟨x, hx, rfl⟩ := ht
+  refine ⟨x, ?_, rfl⟩
+  rw [← cutSplit_append (tk.stream c d).1]
+  simp [hx]
+
+end
 
 /-- merge adjacent text tokens (what the driver compares) -/
 def normText : List Tok → List Tok
